@@ -76,6 +76,39 @@ def main():
                 R.violation("correspondence", "model and implementation disagree: " + what,
                             {"session": small, "step": j, "impl": got, "model": m}, key={"kind": "memo", "dim": sess["steps"][j]["dim"]},
                             no_input=not verdict_differs)
+    # ---- search: a disagreement on the bindings only is turned into a concrete wrong VERDICT by trying follow-up checks
+    memo_only = [v for v in R.violations if v["kind"] == "correspondence" and v["no_input"] and "session" in v["case"]][:12]
+    if memo_only and not any(v["kind"] == "property" for v in R.violations):
+        import re as _re
+        ext, origin = [], []
+        for v in memo_only:
+            base = v["case"]["session"]
+            names = set(_re.findall(r"([A-Za-z_]\w*)=", v["case"]["impl"] + " " + v["case"]["model"]))
+            shapes = [tuple(int(x) for x in m.split(",") if x) for m in _re.findall(r"\(([\d,]*)\)", v["case"]["impl"] + " " + v["case"]["model"])]
+            sizes = sorted({int(x) for x in _re.findall(r"=(\d+)", v["case"]["impl"] + " " + v["case"]["model"])} | {1, 2, 3})
+            cands = []
+            for nm in names:
+                for sh in set(shapes):
+                    for extra in ((), (2,), (1,)):
+                        cands.append(("*" + nm, extra + sh)); cands.append(("*#" + nm, extra + sh))
+                for z in sizes:
+                    cands.append((nm, (z,))); cands.append(("#" + nm, (z,)))
+            for d, sh in cands[:60]:
+                ext.append(dict(base, steps=base["steps"] + [dict(dim=d, shape=list(sh), dtype="float32", cat="Float", arr="np")])); origin.append(v)
+        if ext:
+            out2 = vf.impl("impl_array.py", {"mode": "sessions", "sessions": ext})
+            terms2 = [G.session_coq(se, out2["cat_dtypes"], [x for r in rs for x in r.get("syms", [])]) for se, rs in zip(ext, out2["results"])]
+            model2 = vf.coq_eval_strings(["model.Check"], "fun c => let '(st, args, noctx, steps) := c in run_session st args noctx steps", terms2, shard=500)
+            found = set()
+            for se, rs, ml, v in zip(ext, out2["results"], model2, origin):
+                if id(v) in found or rs[-1]["build"] != "ok":
+                    continue
+                iv, mv = rs[-1]["verdict"], ml.split(" | ")[-1].split(" ")[0]
+                if iv != mv:
+                    found.add(id(v))
+                    st = se["steps"][-1]
+                    R.violation("property", "after the history %s the check isinstance(array%s, Float[.., %r]) answers `%s`; by the dim-string semantics (proved model) it must answer `%s`" % (
+                        [(x["dim"], tuple(x["shape"])) for x in se["steps"][:-1]], tuple(st["shape"]), st["dim"], iv, mv), {"session": se, "impl": iv, "model": mv}, key={"kind": "verdict-after-history", "dim": st["dim"]})
     if not proved:
         R.violation("proof", "proof obligations of props/C01.v no longer check: " + str(R.broken_proof)[-800:],
                     {"theorem_file": "coq/props/C01.v", "log": R.broken_proof}, no_input=not any(v["kind"] == "property" for v in R.violations))
